@@ -837,3 +837,46 @@ def r13_15_built_objects_do_not_alias_builder_state(ctx: Ctx) -> RuleResult:
                         else:
                             rr.fail(ctor.qual, f"stores the `{pname}` it is given as it is, and {g.qual} passes its own `{a.attr}`, which {c.name} keeps mutating: the built object changes when the builder is used again", ctx.loc(ctor))
     return rr
+
+
+# ------------------------------------------------------------------------------------------- R13.16 identity-bearing objects are created atomically
+
+
+# classes without __eq__ whose instances are never compared or used as keys: a second instance is indistinguishable
+IDENTITY_IRRELEVANT = {
+    "_PatternBclSupport": "stateless formatting helper (a default format string and a function); nothing compares, stores in a set or keys on it",
+}
+
+
+@rule("C13")
+def r13_16_identity_singletons_are_atomic(ctx: Ctx) -> RuleResult:
+    """functools.cache memoises without a lock: two threads that miss at the same time both run the function and get different
+    results.  That is harmless for value objects (equal by value) and wrong for objects that are compared by IDENTITY: a class
+    without __eq__ whose instances are created through a memoised factory is a set of singletons, and the loser of the race keeps
+    an object that is `!=` to the registered one (an Era held by a calendar then fails `era != self.__era`: "Only supported era is
+    AP; requested era was AP").  Every memoised function that constructs an instance of a class without __eq__ is reported."""
+    rr = RuleResult("R13.16", "objects compared by identity (classes without __eq__) are never created through the non-atomic functools.cache / lru_cache", min_instances=5)
+    M = ctx.M
+    for f in sorted(set(M.func_of_node.values()), key=lambda x: x.qual):
+        if isinstance(f.node, ast.Lambda) or not any("cache" in d for d in f.decorators) or not f.mod.rel.startswith("pyoda_time/") or "_compatibility" in f.mod.rel:
+            continue
+        rr.inst()
+        made = None
+        for n in own_nodes(f.node):
+            if isinstance(n, ast.Call):
+                t = unparse(n.func)
+                if t in ("super().__new__", "object.__new__") and f.cls is not None:
+                    made = f.cls
+                elif isinstance(n.func, ast.Name) and M.classes.get(n.func.id):
+                    made = made or M.classes[n.func.id][0]
+        if made is None:
+            rr.ok({"memoised": f.qual, "constructs": "no repo object"})
+            continue
+        has_eq = any("__eq__" in k.methods for k in M.mro(made) if k.mod.rel.startswith("pyoda_time/"))
+        if made.name in IDENTITY_IRRELEVANT:
+            rr.ok({"memoised": f.qual, "constructs": made.name, "reviewed": IDENTITY_IRRELEVANT[made.name]})
+        elif has_eq:
+            rr.ok({"memoised": f.qual, "constructs": made.name, "equality": "by value"})
+        else:
+            rr.fail(f.qual, f"{made.name} has no __eq__ (its instances are compared by identity) and is created through `{sorted(d for d in f.decorators if 'cache' in d)[0]}`, which is not atomic: two threads can obtain two different `{made.name}` objects for the same arguments", ctx.loc(f))
+    return rr
